@@ -137,6 +137,10 @@ def stream_suite(ctx):
             ctx.nontrivial_case(("s", init, tuple(ops)))
         ctx.sample(dict(suite="stream", init=init, ops=ops, final_state=states[-1] if states else None))
         if err is not None or (v and v[0] != 0):
+            if bad + mism >= 3:          # shrink and report only the first few failures; count the rest
+                bad += 1
+                continue
+
             def still(cands):
                 rr = judge_stream_cases(ctx, cands, "stream_shrink")
                 return [(e is not None) or (vv and vv[0] != 0) for vv, _, e in rr]
@@ -322,6 +326,9 @@ def coll_suite(ctx):
                         final_keys=obs[-1]["keys"], final_iter=obs[-1]["iter"]), limit=6)
         if v[0] == 0:
             agree += 1
+            continue
+        if bad + mism >= 3:
+            bad += 1
             continue
 
         def still(cands):
